@@ -164,6 +164,37 @@ def unjson(c):
     return out
 
 
+def norm_param_batch_oracle(rng, n):
+    """non-stationary normalisation term under a parameter batch: batch time i goes with parameter row i, so the term is
+    mean_i ( L * mean_j u(t_i, s_j; a_i) - 1 )^2 (the network's output adds the batched parameter a)"""
+    jax, jnp, np, eqx, jinns = jx()
+    from jinns.parameters import Params
+    from jinns.data._Batchs import PDENonStatioBatch
+    from poly import peval
+    fails = []
+    for _ in range(n):
+        dim = rng.choice([1, 2])
+        up = prand(rng, dim + 1, 2, 3) or {(0,) * (dim + 1): 1}
+        nt, N = rng.randint(1, 4), rng.randint(1, 4)
+        ts = [dy(rng) + 0.125 * k for k in range(nt)]; arows = [dy(rng) for _ in range(nt)]
+        samples = [[dy(rng) for _ in range(dim)] for _ in range(N)]
+        Lint = rng.choice([1.0, 2.0, 0.5])
+        u = mk([up], "nonstatio_PDE", output_transform=lambda i, o, p: o + p.eq_params["a"])
+        P = Params(nn_params=u.init_params(), eq_params={"a": jnp.array(7.0)})
+        L = jinns.loss.LossPDENonStatio(u=u, dynamic_loss=None, params=P, norm_samples=jnp.array(samples), norm_int_length=Lint)
+        batch = PDENonStatioBatch(times_x_inside_batch=jnp.array([[t] + [0.0] * dim for t in ts]), times_x_border_batch=None,
+                                  param_batch_dict={"a": jnp.array(arows)[:, None]})
+        try:
+            got = float(L.evaluate(P, batch)[1]["norm_loss"])
+        except Exception as ex:
+            fails.append({"detail": f"non-stationary normalisation term with a parameter batch raised {type(ex).__name__}: {str(ex)[:200]}", "case": {"what": "norm_param_batch"}})
+            continue
+        want = sum((Lint * sum(peval(up, [t] + sj) + a for sj in samples) / N - 1.0) ** 2 for t, a in zip(ts, arows)) / nt
+        if abs(got - want) > 1e-9 * (1 + abs(want)):
+            fails.append({"detail": f"non-stationary normalisation term with a parameter batch ({nt} times / rows, {N} samples): {got}, pairing time i with row i gives {want}", "case": {"what": "norm_param_batch"}})
+    return fails
+
+
 def generate(tier, seed, casedir, variant):
     rng = random.Random(seed)
     cases, meta, viol, samples, dist = [], {}, [], [], {}
@@ -210,13 +241,14 @@ def generate(tier, seed, casedir, variant):
     except Exception as ex:
         viol.append({"detail": f"system terms comparison raised {type(ex).__name__}: {str(ex)[:300]}", "case": {"what": "system terms"}})
     dist["system_loss_rounds"] = nsys
+    viol += norm_param_batch_oracle(rng, 6 if tier == "quick" else 30)
     return dict(meta=meta, oracle_violations=viol, evaluations=len(cases), distinct_nontrivial=len(nontrivial), samples=samples, distribution=dist,
-                rule="per (term, loss kind): random polynomial networks with 1..3 outputs whose output adds the equation parameter a, dyadic points, scalar and per-component weights, solution / observation slices (the stationary normalisation term too is taken over the solution slice), observed parameter rows present or not, initial-condition functions returning an array or a scalar, half of the initial-condition / normalisation cases next to an observation part whose observed parameter rows must not reach them, every loss evaluated twice on the same objects; plus separable-network against pointwise initial-condition / normalisation terms (oracle only); plus the three terms of random system losses against the weighted sums of the single-network terms (oracle only); non-trivial = the term is non-zero",
+                rule="per (term, loss kind): random polynomial networks with 1..3 outputs whose output adds the equation parameter a, dyadic points, scalar and per-component weights, solution / observation slices (the stationary normalisation term too is taken over the solution slice), observed parameter rows present or not, initial-condition functions returning an array or a scalar, half of the initial-condition / normalisation cases next to an observation part whose observed parameter rows must not reach them, every loss evaluated twice on the same objects; plus separable-network against pointwise initial-condition / normalisation terms (oracle only); plus the non-stationary normalisation term under a parameter batch against its definition (oracle only); plus the three terms of random system losses against the weighted sums of the single-network terms (oracle only); non-trivial = the term is non-zero",
                 oracle_checks=0)
 
 
 def replay(rep, casedir, variant):
-    if rep["case"].get("what") in ("terms", "impl_vs_impl", "residual", "vector operator", "system terms"):       # oracle-only comparisons are regenerated from the seed of the run
+    if rep["case"].get("what") in ("terms", "impl_vs_impl", "residual", "vector operator", "system terms", "norm_param_batch"):       # oracle-only comparisons are regenerated from the seed of the run
         return generate("quick", rep.get("seed", 0), casedir, variant)
     cfg = unjson(rep["case"])
     first, obs = evaluate(cfg, both=True)
